@@ -62,10 +62,13 @@ pub struct QpLayout {
     /// kilobytes of comment lines spread over the file (it then outgrows BufReader's 8 KiB buffer)
     #[serde(default)]
     pub padding_kb: u8,
+    /// comment lines in front so that a line ends exactly at a buffer boundary of the readers
+    #[serde(default)]
+    pub align: Option<super::align::Align>,
 }
 impl QpLayout {
     pub fn plain() -> Self {
-        QpLayout { seed: 0, trailing_text: false, comment_lines: false, tab: false, numbers: 0, crlf: false, final_newline: true, trailing_lines: 0, word_case: 0, padding_kb: 0 }
+        QpLayout { seed: 0, trailing_text: false, comment_lines: false, tab: false, numbers: 0, crlf: false, final_newline: true, trailing_lines: 0, word_case: 0, padding_kb: 0, align: None }
     }
 }
 
@@ -336,6 +339,20 @@ impl QpModel {
                 lines.insert(pos, (l, LineKind::Noise));
             }
         }
+        if let Some(a) = &lay.align {
+            let nl_len = if lay.crlf { 2 } else { 1 };
+            let lens: Vec<usize> = lines.iter().map(|l| l.0.len()).collect();
+            let mut prng = Rng::new(lay.seed ^ 0xA116);
+            // trailing lines come after; the text proper is what is aligned (its last line is terminated when they follow)
+            let terminated = lay.final_newline || lay.trailing_lines > 0;
+            for (k, n) in super::align::pad_lines(a, &lens, nl_len, terminated).into_iter().enumerate() {
+                let mut l = String::from("!");
+                for _ in 1..n {
+                    l.push((b'!' + prng.below(90) as u8) as char);
+                }
+                lines.insert(k, (l, LineKind::Noise));
+            }
+        }
         let last_required = lines.iter().rposition(|(_, k)| *k != LineKind::Noise).unwrap_or(0);
         for i in 0..lay.trailing_lines {
             lines.push((format!("trailing text {i} 1 2 3"), LineKind::Trailing));
@@ -580,5 +597,6 @@ pub fn gen_layout(rng: &mut Rng) -> QpLayout {
         trailing_lines: *rng.pick(&[0u8, 0, 0, 1, 3]),
         word_case: rng.below(3) as u8,
         padding_kb: 0,
+        align: None,
     }
 }
